@@ -47,7 +47,7 @@ def required(tier):
     return {"records_roundtripped": 1500, "records_with_alts": 800, "records_multiallelic_site": 200, "records_no_alt": 50,
             "records_no_variable_site": 50, "sites_checked": 2000, "pipelines_run": 20, "pipeline_records_checked": 60,
             "pipeline_gts_checked": 150, "assemble_records_snvpos_checked": 40,
-            "records_read_with_zero_prior_alleles": 200, "pipelines_pooled": 4, "pipelines_call_prior_from_assemble_afp": 6, "pipelines_wide_locus": 2}
+            "records_read_with_zero_prior_alleles": 200, "records_with_lower_case_snv_column": 40, "pipelines_pooled": 4, "pipelines_call_prior_from_assemble_afp": 6, "pipelines_wide_locus": 2}
 
 
 def run_fn(tier, seed, spec, col):
@@ -68,6 +68,14 @@ def run_fn(tier, seed, spec, col):
                 r["var_cols"] = []
             elif u < 0.16 and r["alts"]:
                 r.setdefault("info", {})["REFMASKED"] = True
+            if rng.random() < 0.1:
+                # session 4: soft-masked (lower-case) stretches, the same columns in every listed sequence - htslib keeps the case
+                # of REF / ALT, and the round trip must reproduce the sequences exactly as written
+                lo_ = int(rng.integers(0, len(r["ref"])))
+                hi_ = int(rng.integers(lo_ + 1, len(r["ref"]) + 1))
+                low = lambda q: q[:lo_] + q[lo_:hi_].lower() + q[hi_:]
+                r["ref"], r["alts"] = low(r["ref"]), [low(a) for a in r["alts"]]
+                r["lower"] = any(lo_ <= c_ < hi_ for c_ in r["var_cols"])
             if "info" in r:
                 r["info"]["SNVPOS"] = ",".join(str(x + 1) for x in r["var_cols"]) if r["var_cols"] else "."
                 r["info"]["NVAR"] = str(len(r["var_cols"]))
@@ -87,6 +95,8 @@ def run_fn(tier, seed, spec, col):
                 nontriv = bool(r["alts"]) and bool(r["var_cols"])
                 col.case(case, nontrivial=nontriv)
                 col.count("records_roundtripped")
+                if r.get("lower") and r["alts"]:
+                    col.count("records_with_lower_case_snv_column")
                 if r["alts"]:
                     col.count("records_with_alts")
                 else:
